@@ -71,6 +71,9 @@ Families == [
   \* temporaries numbered with a gap (#0 and #2), the macro used inside its own slot and twice in a sequence
   tempsgap |-> [v |-> {Ida, Idx, One, Asg, Semi, KEnd},
                 m |-> << Mac(0, <<L("id","x"), S("P"), L("end","END")>>, <<Tmp(0), Asg, One, Semi, Ins(0), Semi, Tmp(2), Asg, Tmp(0)>>) >>],
+  \* a macro with temporaries (numbered with a gap) whose VALUE slot can hold its own expansion: short streams nest it three deep
+  tnest |-> [v |-> {Ida, Idb, Idx},
+             m |-> << Mac(0, <<L("id","x"), S("VALUE")>>, <<KRun, Tmp(0), KWith, Ins(0), Comma, Tmp(2), KEnd>>) >>],
   \* two macros of equal priority using the same temporary numbers, uses visible at the same time
   temps2 |-> [v |-> {Ida, Idx, Idy, Semi},
               m |-> << Mac(0, <<L("id","x"), S("ID")>>, <<Tmp(0), Asg, Ins(0)>>),
